@@ -261,8 +261,6 @@ int file_read(
       break;
   }
 
-  // FIXME: read_elf() and maybe others returns the start address or -1.
-  if (ret >= 0) { ret = 0; }
   if (ret != 0) { return ret; }
 
   if (cpu_name != NULL)
